@@ -243,31 +243,49 @@ def resolve_skips_type_error(ev) -> bool:
     raise TranslationError(f"resolve_name: unrecognised set of skipped exceptions {sorted(set(caught))}")
 
 
-def read_config() -> dict:
+def read_config(parts=("clone", "parser", "ns", "skipTE")) -> dict:
     ev = parse("src/celpy/evaluation.py")
-    init = parse("src/celpy/__init__.py")
-    cp = parse("src/celpy/celparser.py")
-    interpreted_fresh(ev, init)
-    return {"clone": clone_policy(ev), "parser": parser_policy(cp), "ns": namespace_policy(ev),
-            "skipTE": resolve_skips_type_error(ev)}
+    out = {}
+    if "clone" in parts:
+        init = parse("src/celpy/__init__.py")
+        interpreted_fresh(ev, init)
+        out["clone"] = clone_policy(ev)
+    if "parser" in parts:
+        out["parser"] = parser_policy(parse("src/celpy/celparser.py"))
+    if "ns" in parts:
+        out["ns"] = namespace_policy(ev)
+    if "skipTE" in parts:
+        out["skipTE"] = resolve_skips_type_error(ev)
+    return out
 
 
 def gen_runtime() -> str:
-    cfg = read_config()
-    out = [HEADER.format(src="src/celpy/evaluation.py (Referent.clone, NameContainer.clone, Activation.clone, Transpiler.evaluate, "
-                             "Evaluator.set_activation), src/celpy/__init__.py (InterpretedRunner.evaluate), src/celpy/celparser.py (CELParser)"),
+    """C05: object sharing between a program's construction-time activation and its per-call copies; parser cache"""
+    cfg = read_config(("clone", "parser", "skipTE"))
+    out = [HEADER.format(src="src/celpy/evaluation.py (Referent.clone, NameContainer.clone, Activation.clone, Evaluator.set_activation, "
+                             "NameContainer.resolve_name), src/celpy/__init__.py (InterpretedRunner.evaluate), src/celpy/celparser.py (CELParser)"),
            "import Cel.Model.Runtime\nnamespace Cel.Gen.Runtime\nopen Cel.Runtime\n",
            "/-- what `Referent.clone` does with the nested container -/",
            f"def clonePolicy : ClonePolicy := .{cfg['clone']}",
            "/-- how `CELParser` caches lark parsers -/",
            f"def parserPolicy : ParserPolicy := .{cfg['parser']}",
-           "/-- the namespace `Transpiler.evaluate` hands to `exec` -/",
-           f"def namespacePolicy : NamespacePolicy := .{cfg['ns']}",
            "/-- `resolve_name` skips a `TypeError` of `find_name` like `NotFound` -/",
            f"def resolveSkipsTypeError : Bool := {'true' if cfg['skipTE'] else 'false'}",
-           "def config : Config := ⟨clonePolicy, parserPolicy, namespacePolicy, resolveSkipsTypeError⟩",
+           "/-- the configuration of the current source, for either exec-namespace policy (that one is read into Cel.Gen.RuntimeNs) -/",
+           "def config (ns : NamespacePolicy) : Config := ⟨clonePolicy, parserPolicy, ns, resolveSkipsTypeError⟩",
            "end Cel.Gen.Runtime\n"]
     return "\n".join(out)
 
 
-GENERATORS = {"Runtime": gen_runtime}
+def gen_runtime_ns() -> str:
+    """C16: the namespace the transpiled statements execute in"""
+    cfg = read_config(("ns",))
+    out = [HEADER.format(src="src/celpy/evaluation.py (Transpiler.evaluate)"),
+           "import Cel.Model.Runtime\nnamespace Cel.Gen.RuntimeNs\nopen Cel.Runtime\n",
+           "/-- the namespace `Transpiler.evaluate` hands to `exec` -/",
+           f"def namespacePolicy : NamespacePolicy := .{cfg['ns']}",
+           "end Cel.Gen.RuntimeNs\n"]
+    return "\n".join(out)
+
+
+GENERATORS = {"Runtime": gen_runtime, "RuntimeNs": gen_runtime_ns}
